@@ -584,7 +584,8 @@ def r_multi_order(ck: Checker) -> None:
             bad = f"no rule matches: {lf.outcome} {lf.val()}"
     if not bad and decided != {True, False}:
         raise Unsupported("MultiPatternMatcher.match: the rule order source was not decided for both cases", f.node)
-    (ck.holds if not bad else ck.violation)("R-MULTI-ORDER", f, f.node, what, **({"evaluations": len(leaves)} if not bad else {"construct": f"MultiPatternMatcher.match: {bad}"}))
+    (ck.holds if not bad else ck.violation)("R-MULTI-ORDER", f, f.node, what, **({"evaluations": len(leaves)} if not bad else {"construct": f"MultiPatternMatcher.match: {bad}",
+                                                                                                                   "positive": "a rule is skipped when" in bad}))
     g = ck.repo.func(PAT, "MultiPatternMatcher.__init__")
     loops = [st for st in g.node.body if isinstance(st, ast.For)]
     what = "rules are registered in the order given (dict insertion order = definition order)"
